@@ -254,7 +254,37 @@ def gen_trace(recipe):
         if o1 != 'ok':
           ev['variant_raised'] = o1
       ev['vals'] = ds
+      # the LABELS as equivalent array-likes too (list, tuple, float array holding the same numbers)
+      if labels is not None and np.ndim(labels) == 1 and len(labels):
+        lab = np.asarray(labels)
+        lvs = [lab.tolist(), tuple(lab.tolist())]
+        if lab.dtype.kind in 'iuf' and np.all(lab == np.round(lab)) and np.abs(lab).max() < 100:
+          lvs += [lab.astype(float), lab.astype(np.int8)]           # (whole-number labels: any numeric type holds them)
+        for lv in lvs:
+          o1, d1 = invoke(bench, k, m, c, arr, lv)
+          ds.append(d1 if o1 == 'ok' else [])
+          if o1 != 'ok':
+            ev['variant_raised'] = o1
     events.append(ev)
+    if outcome == 'ok' and m == 'calibrate_threshold' and labels is not None and not c['prep']:
+      # ... and under every calibration strategy: the stored threshold must not depend on how data and labels are spelled
+      est = bench.fitted[False]
+      lab = np.asarray(labels)
+      for kw in (dict(strategy='max_tpr', min_rate=0.3), dict(strategy='max_tpr', min_rate=0.8), dict(strategy='max_tnr', min_rate=0.4),
+                 dict(strategy='f_beta', beta=2.0)):
+        def thr(a, l):
+          with warnings.catch_warnings():
+            warnings.simplefilter('ignore')
+            try:
+              est.calibrate_threshold(a, l, **kw)
+              return dyv([float(est.threshold_)])
+            except Exception:
+              return []
+        e2 = dict(ev, base_vals=thr(arr, lab), strategy=kw['strategy'])
+        e2['vals'] = [thr(np.asarray(arr).tolist(), lab), thr(arr, lab.tolist()), thr(arr, tuple(lab.tolist())), thr(arr, lab.astype(float)),
+                      thr(np.asfortranarray(arr), lab.tolist())]
+        if e2['base_vals'] and np.all(np.isfinite([__import__('num').to_float(x) for x in e2['base_vals']])):
+          events.append(e2)
   return {'est': recipe['est'], 'events': events}
 
 
